@@ -71,9 +71,12 @@ func runC18(c *Ctx) {
 		}
 		r.Check("R18.2", FuncName(update), "the default width is LongestLineCells of the cell's text", update.Pos(), found, "")
 		c18WidthStores(c, "R18.2")
+		c18MetricsAssigned(c, update, width, height)
 		c18HeightShape(c, update, lines, str, height)
 	}
 	checkEmitWidth(c, "R18.2")
+	// the emit pass prints, for every cell, exactly the lines the layout pass measured (C04's slot wiring)
+	importPremises(c, "R18.2", "emit-pass premise ", "a line that is altered or dropped between measuring and printing makes the two passes disagree", func(o *Ob) bool { return o.Rule == "R04.2" }, func() { runC04(c) })
 
 	// ---- R18.3
 	ix := c.Idx()
@@ -148,6 +151,9 @@ func isFullRangeIndex(c *Ctx, fn *ssa.Function, idx ssa.Value, sl ssa.Value) boo
 		return false
 	}
 	hdr := phi.Block()
+	if off == 0 && isCountDownOver(p, phi, sl) {
+		return true
+	}
 	for k, pred := range hdr.Preds {
 		if hdr.Dominates(pred) {
 			e := p.linOf(phi.Edges[k]).sub(linTerm(p.canon(phi)))
@@ -371,20 +377,42 @@ func c18LongestLine(c *Ctx, ll, lines *ssa.Function, measureName string, isMeasu
 	}
 	okMax, whyMax := false, "no running maximum found"
 	single := true // a function with only the single fast path has no loop: then the maximum is not applicable
+	pr := c.Idx().proverFor(ll)
 	eachInstr(ll, func(in ssa.Instruction) {
 		phi, ok := in.(*ssa.Phi)
-		if !ok || okMax {
+		if !ok || okMax || !pr.isLoopPhi(phi) || !isIntType(phi.Type()) {
 			return
 		}
+		// the values that can flow into the loop variable, through merge points inside the body
+		type leaf struct {
+			v          ssa.Value
+			pred, succ *ssa.BasicBlock
+		}
+		var leaves []leaf
+		seen := map[*ssa.Phi]bool{phi: true}
+		var flat func(q *ssa.Phi)
+		flat = func(q *ssa.Phi) {
+			for k, e := range q.Edges {
+				if sub, isPhi := e.(*ssa.Phi); isPhi && sub != phi {
+					if !seen[sub] {
+						seen[sub] = true
+						flat(sub)
+					}
+					continue
+				}
+				leaves = append(leaves, leaf{e, q.Block().Preds[k], q.Block()})
+			}
+		}
+		flat(phi)
 		hasMeasure := false
-		for _, e := range phi.Edges {
-			if e == ssa.Value(phi) {
+		for _, lf := range leaves {
+			if lf.v == ssa.Value(phi) {
 				continue
 			}
-			if k, isK := constInt(e); isK && k == 0 {
+			if k, isK := constInt(lf.v); isK && k == 0 {
 				continue
 			}
-			if call, isCall := e.(*ssa.Call); isCall && isMeasure(call) {
+			if call, isCall := lf.v.(*ssa.Call); isCall && isMeasure(call) {
 				hasMeasure = true
 				continue
 			}
@@ -394,16 +422,14 @@ func c18LongestLine(c *Ctx, ll, lines *ssa.Function, measureName string, isMeasu
 			return
 		}
 		single = false
-		pr := c.Idx().proverFor(ll)
 		okMax, whyMax = true, ""
-		for k, e := range phi.Edges {
-			call, isCall := e.(*ssa.Call)
+		for _, lf := range leaves {
+			call, isCall := lf.v.(*ssa.Call)
 			if !isCall {
 				continue
 			}
-			pred := phi.Block().Preds[k]
 			guarded := false
-			for _, cf := range pr.edgeConds(pred, phi.Block()) {
+			for _, cf := range pr.edgeConds(lf.pred, lf.succ) {
 				b, isB := cf.Cond.(*ssa.BinOp)
 				if !isB {
 					continue
@@ -447,7 +473,7 @@ func c18LongestAll(c *Ctx, lines *ssa.Function, kinds []string) {
 			}
 			continue
 		}
-		c18LongestLine(c, ll, lines, "String"+x, func(call *ssa.Call) bool { return call.Call.StaticCallee() == m },
+		c18LongestLine(c, ll, lines, "String"+x, func(call *ssa.Call) bool { return sameMeasure(call, m) },
 			func(call *ssa.Call) bool {
 				f := call.Call.StaticCallee()
 				return f != nil && f != m && funcPkgPath(f) == pkgPath("length") && strings.HasPrefix(f.Name(), "String")
@@ -502,4 +528,183 @@ func c18WidthStores(c *Ctx, rule string) {
 		}
 	}
 	r.Floor(rule, "values stored as a cell's width", n, 3)
+}
+
+// isCountDownOver: phi runs len(sl)-1, len(sl)-2, .., 0:  for i := len(sl)-1; i >= 0; i--
+func isCountDownOver(p *prover, phi *ssa.Phi, sl ssa.Value) bool {
+	hdr := phi.Block()
+	for k, pred := range hdr.Preds {
+		if hdr.Dominates(pred) {
+			e := p.linOf(phi.Edges[k]).sub(linTerm(p.canon(phi)))
+			if !e.isConst() || e.k != -1 {
+				return false
+			}
+		} else {
+			e := p.linOf(phi.Edges[k]).sub(p.lenOf(sl))
+			if !e.isConst() || e.k != -1 {
+				return false
+			}
+		}
+	}
+	iff, ok := hdr.Instrs[len(hdr.Instrs)-1].(*ssa.If)
+	if !ok {
+		return false
+	}
+	cs := p.condConstraints(iff.Cond, true)
+	want := leq(linConst(0), linTerm(p.canon(phi)), "")
+	return len(cs) == 1 && cs[0].e.String() == want.e.String()
+}
+
+// sameMeasure: call computes what the one-line measure function m computes: it is a call of m, or of the very
+// function (or builtin) m's body applies to its argument (m inlined by hand).
+func sameMeasure(call *ssa.Call, m *ssa.Function) bool {
+	if call.Call.StaticCallee() == m {
+		return true
+	}
+	rets := returnsOf(m)
+	if len(rets) != 1 || len(m.Params) != 1 {
+		return false
+	}
+	body, ok := results(rets[0])[0].(*ssa.Call)
+	if !ok || len(body.Call.Args) != 1 || body.Call.Args[0] != ssa.Value(m.Params[0]) || len(call.Call.Args) != 1 {
+		return false
+	}
+	if bb, isB := body.Call.Value.(*ssa.Builtin); isB {
+		cb, isB2 := call.Call.Value.(*ssa.Builtin)
+		return isB2 && cb.Name() == bb.Name() && isStringType(call.Call.Args[0].Type())
+	}
+	return body.Call.StaticCallee() != nil && body.Call.StaticCallee() == call.Call.StaticCallee()
+}
+
+// c18MetricsAssigned: every path through Update assigns both the width and the height before it returns, so the
+// metrics never outlive the text they were measured from (a cell is re-Updated when its item changes). Paths are
+// enumerated with boolean flags evaluated where they are phis of constants (the "text is empty" flag idiom) and
+// repeated tests of one condition value decided consistently.
+func c18MetricsAssigned(c *Ctx, update *ssa.Function, width, height *types.Var) {
+	r := c.R
+	for _, b := range update.Blocks {
+		for _, s := range b.Succs {
+			if s.Dominates(b) {
+				r.Note("shape-unrecognised R18.2: Update contains a loop; assignment of the metrics on every path is not evaluated")
+				return
+			}
+		}
+	}
+	recv := update.Params[0]
+	type out struct {
+		ret  *ssa.Return
+		w, h bool
+	}
+	var outs []out
+	npaths := 0
+	decided := map[ssa.Value]bool{}
+	env := map[*ssa.Phi]bool{}
+	var eval func(v ssa.Value) (bool, bool)
+	eval = func(v ssa.Value) (bool, bool) {
+		if k, ok := constBool(v); ok {
+			return k, true
+		}
+		if d, ok := decided[v]; ok {
+			return d, true
+		}
+		if phi, ok := v.(*ssa.Phi); ok {
+			if d, has := env[phi]; has {
+				return d, true
+			}
+		}
+		if u, ok := v.(*ssa.UnOp); ok && u.Op == token.NOT {
+			if d, has := eval(u.X); has {
+				return !d, true
+			}
+		}
+		return false, false
+	}
+	var walk func(b, prev *ssa.BasicBlock, w, h bool)
+	walk = func(b, prev *ssa.BasicBlock, w, h bool) {
+		if npaths > 50000 {
+			return
+		}
+		var saved []struct {
+			phi *ssa.Phi
+			val bool
+			had bool
+		}
+		for _, in := range b.Instrs {
+			phi, ok := in.(*ssa.Phi)
+			if !ok {
+				break
+			}
+			old, had := env[phi]
+			saved = append(saved, struct {
+				phi *ssa.Phi
+				val bool
+				had bool
+			}{phi, old, had})
+			delete(env, phi)
+			for k, p := range b.Preds {
+				if p == prev {
+					if d, known := eval(phi.Edges[k]); known {
+						env[phi] = d
+					}
+				}
+			}
+		}
+		defer func() {
+			for _, sv := range saved {
+				if sv.had {
+					env[sv.phi] = sv.val
+				} else {
+					delete(env, sv.phi)
+				}
+			}
+		}()
+		for _, in := range b.Instrs {
+			switch x := in.(type) {
+			case *ssa.Store:
+				f, base := storeField(x.Addr)
+				if base == ssa.Value(recv) {
+					if f == width {
+						w = true
+					}
+					if f == height {
+						h = true
+					}
+				}
+			case *ssa.Return:
+				npaths++
+				outs = append(outs, out{x, w, h})
+				return
+			case *ssa.If:
+				if d, known := eval(x.Cond); known {
+					if d {
+						walk(b.Succs[0], b, w, h)
+					} else {
+						walk(b.Succs[1], b, w, h)
+					}
+					return
+				}
+				decided[x.Cond] = true
+				walk(b.Succs[0], b, w, h)
+				decided[x.Cond] = false
+				walk(b.Succs[1], b, w, h)
+				delete(decided, x.Cond)
+				return
+			}
+		}
+		for _, s := range b.Succs {
+			walk(s, b, w, h)
+		}
+	}
+	walk(update.Blocks[0], nil, false, false)
+	bad := map[*ssa.Return]string{}
+	for _, o := range outs {
+		if !o.w || !o.h {
+			bad[o.ret] = fmt.Sprintf("a path returns without assigning width: %v, height: %v", !o.w, !o.h)
+		}
+	}
+	for i, ret := range returnsOf(update) {
+		why, isBad := bad[ret]
+		r.Check("R18.2", FuncName(update), fmt.Sprintf("return #%d: width and height are both assigned on every path", i+1), ret.Pos(), !isBad, why+": the metrics of the previous text survive a re-Update")
+	}
+	r.Floor("R18.2", "paths through Update examined for metric assignment", npaths, 5)
 }
